@@ -38,7 +38,7 @@ def run(ctx):
 
   wm = writersys.WriterModules(ctx.scratch)
   col = writercheck.Collector()
-  limits = [(None, None, None), (60, 4, 50), (60, 4, None)]
+  limits = [(None, None, None), (60, 4, 50), (60, 4, None), (None, 1, None)]      # the last: every write after the first waits for a token
   if not ctx.quick:
     limits += [(None, 2, 100), (30, None, None)]
   for lim in limits:
@@ -48,8 +48,13 @@ def run(ctx):
       if ctx.quick and lim != limits[0] and si % 3 != limits.index(lim) % 3:
         continue
       for lag in lags:
+        li = limits.index(lim)
         cfg = dict(strategy=st, lag=lag, buckets=wm.buckets)
-        r_ops, _ = cachesys.gen_workload(ctx.rng, nmetrics=2, nts=2, nstores=ctx.pick(3, 5), ndrains=0, nqueries=0)
+        cfg['log_updates'], cfg['log_creates'] = (si + li) % 2 == 0 or li == 3, (si + li) % 3 == 0
+        if (si + li) % 3 == 1:
+          # names a pickle client can send: the empty name, and names that differ in empty path components only
+          cfg['alias'] = {'m1': 'srv..cpu', 'm2': ''}
+        r_ops, _ = cachesys.gen_workload(ctx.rng, nmetrics=3 if li == 3 else 2, nts=2, nstores=ctx.pick(4, 5) if li == 3 else ctx.pick(3, 5), ndrains=0, nqueries=0)
         if (si + limits.index(lim)) % 3 == 0:
           # a bulk cache query (cached and never-cached series) right after the first store
           r_ops.insert(1, ('bulkquery', ['m9', r_ops[0][1], 'm8']))
